@@ -105,24 +105,34 @@ func init() {
 		}
 	}
 	genFull := func(g *G) {
+		// 2000 channels.  Channel 1 only becomes reportable later (its validity start lies ahead), so the other 1999
+		// report twice first; then all 2000 are reportable in the same round; then channel 1 is voted out and the
+		// rest keep reporting.  Every channel's windows must still tile.
 		w := newWorld(g)
 		w.f, w.hasPred, w.version, w.interval, w.alias = 1, false, 1, 1, 0
 		w.now = 1_700_000_000_000_000_000
 		defs, va := []any{}, []any{}
 		for id := 1; id <= 2000; id++ {
 			defs = append(defs, J{"id": S(id), "def": J{"format": "2", "opts": "", "streams": []any{J{"sid": S(1 + id%3), "agg": "1"}}}})
-			va = append(va, J{"id": S(id), "va": S(w.now - 1_000_000_000)})
+			start := w.now - 1_000_000_000
+			if id == 1 {
+				start = w.now + 9_000_000_000
+			}
+			va = append(va, J{"id": S(id), "va": S(start)})
 		}
 		start := J{"stage": "production", "ts": S(w.now), "defs": defs, "va": va, "aggs": []any{}}
 		rounds := []any{}
-		for r := 0; r < 4; r++ {
+		for r := 0; r < 6; r++ {
 			w.now += 1_500_000_000
+			if r == 2 {
+				w.now += 10_000_000_000
+			}
 			obs := []any{}
 			honest := []any{}
 			for k := 0; k < 4; k++ {
 				o := J{"retire": false, "attested": "", "ts": S(w.now + uint64(k)), "removes": []any{}, "updates": []any{}, "values": []any{
 					J{"sid": "1", "v": svJ(llo.ToDecimal(decimal.New(1001, -2)))}, J{"sid": "2", "v": svJ(llo.ToDecimal(decimal.New(1002, -2)))}, J{"sid": "3", "v": svJ(llo.ToDecimal(decimal.New(1003, -2)))}}}
-				if r == 2 { // then the channel with the smallest id is voted out
+				if r == 4 { // the channel with the smallest id is voted out
 					o["removes"] = []any{"1"}
 				}
 				obs = append(obs, o)
